@@ -119,7 +119,7 @@ class Model:
 # ------------------------------------------------------------------ alphabets ---------------------------------
 VALS = [1, {"b": {"c": 2}}, [5, 6], None]
 DICT_SET_PATHS = ["a", "a.b", "a.b.c", "l.0", "l.2", "m.x"]
-DICT_OBS_PATHS = ["a", "a.b", "a.b.c", "a.b.c.d", "l", "l.0", "l.1", "l.2", "m", "m.x", "x", "zz"]
+DICT_OBS_PATHS = ["a", "a.b", "a.b.c", "a.b.c.d", "l", "l.0", "l.1", "l.2", "m", "m.x", "x", "zz", "memory", "memory.turns"]
 TYPED_SETS = [("count", 5), ("name", "n"), ("meta", {"k": {"j": 1}}), ("meta.k", 2), ("meta.k.j", 3), ("extra", [7, 8]),
               ("extra.0", 9), ("extra.3", 9), ("nested.x", 4), ("nested.d.q", [1]), ("nested.zz", 1), ("missing", 1),
               ("missing.deep", 1)]
@@ -133,6 +133,8 @@ def ops(kind: str, tier: str) -> list[Any]:
         for p in DICT_SET_PATHS:
             for v in VALS:
                 out.append(("set", p, v))
+        # a top-level key the library treats specially when a value CANNOT be serialized ("memory"): plain JSON under it is ordinary state
+        out += [("set", "memory", {"turns": 2, "last": "hi"}), ("set", "memory.turns", 3)]
         out += [("set_state", "x1"), ("set_state", "empty"), ("set_state", "abc"), ("clear",),
                 ("edit", "setitem_a"), ("edit", "nested_ab"), ("edit", "new_key_and_list"), ("edit", "noop"),
                 ("snap", "setitem_a"), ("snap", "new_key"), ("snap", "setattr_a")]
@@ -253,7 +255,7 @@ def apply_model(kind: str, m: Model, op: Any) -> str:
     raise ValueError(op)
 
 
-SQLITE_OBS = {"dict": ["a.b", "l.1", "m.x", "zz"], "typed": ["meta.k", "nested.x", "extra.0", "missing"]}
+SQLITE_OBS = {"dict": ["a.b", "l.1", "m.x", "zz", "memory.turns"], "typed": ["meta.k", "nested.x", "extra.0", "missing"]}
 
 
 def observe_store(kind: str, store: Any, backend: str = "memory") -> dict[str, Any]:
